@@ -52,6 +52,7 @@ S_IF = [
     "if c == 0:\n x = 2*x\nelif c == 1:\n y = y + 1\nelse:\n x = y\nend",
     "if c == 1:\n c = Bernoulli(1/2)\n x = x + 1\nend",
     "if c >= 1 || c == 2:\n x = x + 1\nend",
+    "if c == 1:\n x = x + 1\nelse:\n c = Bernoulli(1/2)\n y = y + c\nend",
 ]
 S_IF_MORE = [
     "if c == 0 || c <= 1:\n y = y + 1\nelse:\n x = x + 1\nend",
@@ -196,11 +197,14 @@ def goals_for(text, max_deg=2, limit=8, skip=("g", "h")):
     vs = sorted((v for v in assigned_vars(text) if v not in skip), key=lambda v: (order.get(v, 9), v))
     goals = list(vs)
     if max_deg >= 2:
-        for a in vs:
-            goals.append("%s**2" % a)
-        for i, a in enumerate(vs):
-            for b in vs[i + 1:]:
-                goals.append("%s*%s" % (a, b))
+        squares = ["%s**2" % a for a in vs]
+        products = ["%s*%s" % (a, b) for i, a in enumerate(vs) for b in vs[i + 1:]]
+        # interleave so that a short goal list still contains mixed products (joint behaviour) and powers
+        while squares or products:
+            if squares:
+                goals.append(squares.pop(0))
+            if products:
+                goals.append(products.pop(0))
     if max_deg >= 3:
         for a in vs:
             goals.append("%s**3" % a)
@@ -213,6 +217,13 @@ def goals_for(text, max_deg=2, limit=8, skip=("g", "h")):
 
 # Programs that reproduce shapes singled out while reading the code (each one exercises a shortcut).
 SEEDS = [
+    # dependent random initial values (joint initial moments do not factor)
+    "a = Bernoulli(1/2)\nb = a\ns = 0\nwhile true:\n    s = s + a*b\nend\n",
+    "x = DiscreteUniform(0, 2)\ny = x + 1\nwhile true:\n    x = x + 1 {1/2} x\nend\n",
+    "x = Normal(0, 1)\ny = x\nd = 0\nwhile true:\n    g = Normal(0, 1)\n    x = x + g\n    d = x - y\nend\n",
+    # guard false from the start: the body must never run
+    "c = 0\nx = 5\nwhile c == 1:\n    c = Bernoulli(1/2)\n    x = x + 1\nend\n",
+    "x = 5\ny = 0\nwhile x < 3:\n    x = x + 1\n    y = y + 1\nend\n",
     # initial blocks that are more than a list of constants
     "x = 3\nk = x\nwhile true:\n    x = x + k\nend\n",
     "a = 1\nx = a\na = 2\nwhile true:\n    x = x + a\nend\n",
